@@ -13,6 +13,8 @@ import (
 type envModel struct {
 	nowSeq   int
 	lastNow  *Term
+	lastSec  *Term
+	lastFrac *Term
 	fs       *fsModel
 	unixMemo map[string]*Term
 }
@@ -26,22 +28,31 @@ const (
 func (in *Interp) timeCall(fr *frame, fn *ssa.Function, full string, args []Value, pos token.Pos) (Value, bool) {
 	switch full {
 	case "time.Now":
+		// an instant is (whole seconds, milliseconds within the second): Unix() is the seconds variable
+		// itself, so timestamp arithmetic needs no division or multiplication
 		if in.cfg.Params["fixedclock"] == 1 && in.env.lastNow != nil {
 			// harnesses that are not about time: the clock stands still at one arbitrary instant
-			return Struct{BVc(64, 0), in.env.lastNow, NilPtr{}}, true
+			return Struct{in.env.lastSec, in.env.lastNow, NilPtr{}}, true
 		}
 		in.env.nowSeq++
-		t := in.fresh(fmt.Sprintf("$now%d", in.env.nowSeq), SBV, 64)
-		in.assume(BVCmp("ge", true, t, BVc(64, minClockMs)))
-		in.assume(BVCmp("le", true, t, BVc(64, maxClockMs)))
+		sec := in.fresh(fmt.Sprintf("$sec%d", in.env.nowSeq), SBV, 64)
+		frac := in.fresh(fmt.Sprintf("$ms%d", in.env.nowSeq), SBV, 64)
+		in.assume(BVCmp("ge", true, sec, BVc(64, minClockMs/1000)))
+		in.assume(BVCmp("le", true, sec, BVc(64, maxClockMs/1000)))
+		in.assume(BVCmp("ge", true, frac, BVc(64, 0)))
+		in.assume(BVCmp("lt", true, frac, BVc(64, 1000)))
 		if in.env.lastNow != nil {
-			in.assume(BVCmp("ge", true, t, in.env.lastNow))
+			in.assume(Or(BVCmp("gt", true, sec, in.env.lastSec), And(Eq(sec, in.env.lastSec), BVCmp("ge", true, frac, in.env.lastFrac))))
 		}
-		in.env.lastNow = t
-		return Struct{BVc(64, 0), t, NilPtr{}}, true
+		t := BVBin("add", true, BVBin("mul", true, sec, BVc(64, 1000)), frac)
+		in.env.lastNow, in.env.lastSec, in.env.lastFrac = t, sec, frac
+		return Struct{sec, t, NilPtr{}}, true
 	case "(time.Time).UTC", "(time.Time).Local", "(time.Time).Round", "(time.Time).Truncate":
 		return args[0], true
 	case "(time.Time).Unix":
+		if sec := args[0].(Struct)[0].(*Term); !sec.Const {
+			return sec, true
+		}
 		ms := args[0].(Struct)[1].(*Term)
 		if ms.Const {
 			v := sx(64, ms.U)
